@@ -308,13 +308,15 @@ class _GuardModel:
     @staticmethod
     def exc_record(status):
         if isinstance(status, tuple):
+            # ("item", status | [statuses]) or ("item", status, action): the library reports a failed item under the name of the bulk action the document was sent with
             items = status[1] if isinstance(status[1], list) else [status[1]]
+            action = status[2] if len(status) > 2 else "index"
             errs = []
             for i, st in enumerate(items):
                 d = {"_index": "rally-metrics", "_id": str(i), "error": {"type": "some_exception", "reason": "some reason"}}
                 if st is not None:
                     d["status"] = st
-                errs.append({"index": d})
+                errs.append({action: d})
             return Record(errors=errs, message=f"{len(errs)} document(s) failed to index.", args=(f"{len(errs)} document(s) failed to index.", errs))
         return Record(status_code=status, meta=Record(status=status), status=status, error="some_error", message="some message", errors=(), info={}, body={})
 
@@ -579,6 +581,127 @@ class _After:
         return [(trail, "unsupported", p)]
 
 
+class _Undecided(Exception):
+    """a jump of the interpreted statements depends on something the representative values do not decide."""
+
+
+_JUMPS = (ast.Return, ast.Raise, ast.Break, ast.Continue)
+
+
+_VAL_CACHE = {}
+
+
+def _val(expr, env):
+    """minieval value of an extracted expression; `isinstance(x, (A, B))` is read as `isinstance(x, A) or isinstance(x, B)` (on a re-parsed copy)."""
+    ent = _VAL_CACHE.get(id(expr))
+    if ent is None or ent[0] is not expr:
+        p = expr
+        if any(isinstance(n, ast.Call) and dotted(n.func) == "isinstance" and len(n.args) == 2 and isinstance(n.args[1], ast.Tuple) and n.args[1].elts for n in ast.walk(expr)):
+            class P(ast.NodeTransformer):
+                def visit_Call(self, n):
+                    self.generic_visit(n)
+                    if dotted(n.func) == "isinstance" and len(n.args) == 2 and isinstance(n.args[1], ast.Tuple) and n.args[1].elts and not n.keywords:
+                        return ast.BoolOp(ast.Or(), [ast.Call(n.func, [n.args[0], t], []) for t in n.args[1].elts])
+                    return n
+
+            p = ast.fix_missing_locations(P().visit(ast.parse(u(expr), mode="eval").body))
+        ent = _VAL_CACHE[id(expr)] = (expr, p)
+    expr = ent[1]
+    try:
+        return minieval.ev(expr, env)
+    except (TypeError, ValueError, KeyError, IndexError, AttributeError, ArithmeticError) as x:
+        raise CannotEval(f"{short(expr, 50)}: {type(x).__name__}")
+
+
+def _flow(stmts, env):
+    """Outcome of running straight-line / if / try / with statements AS WRITTEN on the representative values in env (mutated): ('raise' | 'return', node) or ('end', None).
+    A test that the values do not decide is skipped when nothing below it jumps (its stores are forgotten), else _Undecided; assumes that no statement raises by itself."""
+
+    def forget(s):
+        for x in ast.walk(s):
+            if isinstance(x, ast.Name) and isinstance(x.ctx, (ast.Store, ast.Del)):
+                env.pop(x.id, None)
+
+    for s in stmts:
+        if isinstance(s, (ast.Return, ast.Raise)):
+            return ("return" if isinstance(s, ast.Return) else "raise"), s
+        if isinstance(s, ast.If):
+            try:
+                t = bool(_val(s.test, env))
+            except CannotEval as x:
+                if any(isinstance(x_, _JUMPS) for x_ in ast.walk(s)):
+                    raise _Undecided(f"`if {short(s.test, 60)}` (line {s.lineno}) is not decided by (method, status, tolerated statuses): {x}")
+                forget(s)
+                continue
+            r = _flow(s.body if t else s.orelse, env)
+            if r[0] != "end":
+                return r
+        elif isinstance(s, ast.Assign) and len(s.targets) == 1 and isinstance(s.targets[0], ast.Name):
+            try:
+                env[s.targets[0].id] = _val(s.value, env)
+            except CannotEval:
+                env.pop(s.targets[0].id, None)
+        elif isinstance(s, (ast.Assign, ast.AugAssign, ast.AnnAssign, ast.Delete)):
+            forget(s)
+        elif isinstance(s, ast.Try):
+            if s.handlers and any(isinstance(x_, ast.Raise) for b_ in s.body for x_ in ast.walk(b_)):
+                raise _Undecided(f"a raise inside the try at line {s.lineno} may be caught by its own handlers")
+            for blk in (s.body, s.orelse, s.finalbody):
+                r = _flow(blk, env)
+                if r[0] != "end":
+                    return r
+        elif isinstance(s, (ast.With, ast.AsyncWith)):
+            forget(s)
+            r = _flow(s.body, env)
+            if r[0] != "end":
+                return r
+        elif isinstance(s, (ast.For, ast.AsyncFor, ast.While)):
+            if any(isinstance(x_, (ast.Return, ast.Raise)) for x_ in ast.walk(s)):
+                raise _Undecided(f"the loop at line {s.lineno} can leave the function")
+            forget(s)
+        elif isinstance(s, (ast.Expr, ast.Pass, ast.Import, ast.ImportFrom, ast.Assert, ast.Global, ast.Nonlocal, ast.FunctionDef, ast.AsyncFunctionDef, ast.ClassDef)):
+            continue
+        else:
+            raise _Undecided(f"statement kind {type(s).__name__} at line {getattr(s, 'lineno', '?')}")
+    return "end", None
+
+
+def _stmts_after(stmt, func):
+    """the statements that run after `stmt` completes normally, up to the end of `func`, when stmt sits in the function body or in if / with / try-body blocks of it; else None."""
+    seq, node = [], stmt
+    while True:
+        p = source.parent(node)
+        field = next((f_ for f_ in ("body", "orelse", "finalbody") if isinstance(getattr(p, f_, None), list) and any(x is node for x in getattr(p, f_))), None)
+        if p is None or field is None:
+            return None
+        blk = getattr(p, field)
+        seq += blk[[i for i, x in enumerate(blk) if x is node][0] + 1:]
+        if p is func:
+            return seq
+        if isinstance(p, (ast.If, ast.With)) or (isinstance(p, ast.Try) and field == "body" and not p.orelse and not p.finalbody):
+            node = p
+            continue
+        return None
+
+
+def _library_text(*parts):
+    """source text of a file of the installed elasticsearch package (read, never imported); '' when it is not there."""
+    import importlib.util
+    import os
+
+    try:
+        spec = importlib.util.find_spec("elasticsearch")
+    except (ImportError, ValueError):
+        return ""
+    for d_ in (spec.submodule_search_locations or []) if spec is not None else []:
+        p_ = os.path.join(d_, *parts)
+        if os.path.exists(p_):
+            try:
+                return open(p_, encoding="utf-8").read()
+            except OSError:
+                return ""
+    return ""
+
 
 def run(chk):
     repo = chk.repo
@@ -593,7 +716,10 @@ def run(chk):
         "arguments bound): 1 + 10 attempts, exhaustion ends in a raise of a Rally error, never a silent loop exit, the pauses grow by a constant factor > 1; and the classification of 25 "
         "outcome classes placed in the real (parsed) library hierarchy as a decision table (transient: retry with one pause while budget, then Rally error; fatal: Rally error at once), "
         "with the set of retried statuses (400..599 fed through the handlers) == {429,502,503,504} for API errors and for bulk items. O17.5 follows the raw Elasticsearch client "
-        "(created by the client package's factory) through esrally/client/factory.py and esrally/metrics.py and requires every request-sending call of the store module to run inside the guard."
+        "(created by the client package's factory) through esrally/client/factory.py and esrally/metrics.py and requires every request-sending call of the store module to run inside the guard. "
+        "O17.6 feeds the bulk arm with item errors reported under every bulk action the store module sends (`_op_type` values resolved through parameters, defaults and call sites; the "
+        "library default otherwise). O17.7 interprets the statements of RallySyncElasticsearch.perform_request behind the transport call for method x status x tolerated statuses "
+        "(none, and each `ignore=` the store client hands to the guard): error answers leave as the API error the guard classifies, 2xx answers return."
     )
     chk.not_decided = "partial success inside helpers.bulk (chunks already indexed are re-sent on retry), real back-off durations, faults of the client library itself."
     EC = met.cls("EsClient")
@@ -738,6 +864,7 @@ def run(chk):
         chk.ob("O17.1", "the factory returns the wrapper", True, mf, "")
     for mf, r in bad_ret:
         chk.ob("O17.1", "the factory returns the wrapper", False, r, f"`{short(r, 60)}` returns something else than the wrapper")
+    wrapper_attrs = set()  # the attributes under which the ES-backed stores keep the wrapper (used by O17.6 to find the callers of the store client's operations)
     for cname in ("EsMetricsStore", "EsRaceStore", "EsResultsStore"):
         try:
             c = met.cls(cname)
@@ -747,6 +874,7 @@ def run(chk):
         asg = [n for n in ast.walk(c) if isinstance(n, ast.Assign) and any(is_self_attr(t) for t in n.targets) and isinstance(n.value, ast.Call) and isinstance(n.value.func, ast.Attribute)
                and n.value.func.attr in (set(creators) or {"create"})]
         held = {t.attr for a in asg for t in a.targets if is_self_attr(t)}
+        wrapper_attrs |= held
         other = [n for n in ast.walk(c) if isinstance(n, ast.Assign) and any(is_self_attr(t) and t.attr in held for t in n.targets) and n not in asg
                  and not (isinstance(n.value, ast.Constant) and n.value.value is None)]
         if not asg:
@@ -1218,6 +1346,235 @@ def run(chk):
             except SIM_ERR:
                 pass
 
+    # ---- O17.6 per-item bulk errors are read under the action the documents are sent with ----------------------------------------------------------
+    # writer: the documents handed to the guarded bulk helper name their bulk action in `_op_type` (the library's default otherwise) and Elasticsearch / helpers.bulk report a
+    # failed item under THAT name ({"create": {"status": 429, ...}}); reader: the bulk arm of the guard. The two must agree for every action the store module can send.
+    import re as _re176
+    chk.rule("O17.6", "for every bulk action under which the store module sends documents (the library's default action, plus every value that flows into a document's `_op_type` in "
+             "esrally/metrics.py - through parameters, their defaults and the call sites of the store client's operations), the bulk arm of the guard, fed with an item error that is "
+             "reported under THAT action, retries item status 429/502/503/504 after one pause and raises a Rally error at once for item status 400", 5,
+             "a per-item rejection (429 es_rejected_execution, 503 unavailable shards) of a document sent under another action is read as `no status`: declared unretryable, no retry, "
+             "no pause, and the Rally error names the cause as [None]")
+    OPKEY = "_op_type"
+    m_ = _re176.search(r"""\.pop\(\s*["']_op_type["']\s*,\s*["'](\w+)["']\s*\)""", _library_text("helpers", "actions.py"))
+    default_action = m_.group(1) if m_ else None
+    if default_action is None:
+        chk.unknown("O17.6", "the default bulk action (`data.pop('_op_type', <default>)`) is not found in the installed elasticsearch/helpers/actions.py", EC)
+    else:
+        chk.trusted.append(f"elasticsearch.helpers: a document is sent under the bulk action named by its `_op_type` (default `{default_action}`) and a failed item is reported under that name")
+
+    def _callers(f):
+        """call sites in the store module that enter f: a store-client operation through self / through the attribute under which a store keeps the wrapper, a method of another
+        class through self, a module function by name."""
+        k = source.parent(f) if isinstance(source.parent(f), ast.ClassDef) else None
+        fparams = set(params_of(f)[1:] + [x.arg for x in f.args.kwonlyargs])
+        out = []
+        for c in ast.walk(met.tree):
+            if not isinstance(c, ast.Call):
+                continue
+            fn = c.func
+            if k is None:
+                if isinstance(fn, ast.Name) and fn.id == f.name:
+                    out.append(c)
+            elif isinstance(fn, ast.Attribute) and fn.attr == f.name:
+                if isinstance(fn.value, ast.Name) and fn.value.id in ("self", "cls"):
+                    if source.enclosing_class(c) is k:
+                        out.append(c)
+                elif k is EC and source.enclosing_class(c) is not EC and (last_attr(fn.value) in (wrapper_attrs or {"_client", "client"}) or (
+                        c.keywords and all(k_.arg in fparams for k_ in c.keywords))):
+                    out.append(c)  # the receiver is the wrapper kept by a store, or (wrapper reached through a local) every argument is named like a parameter of the operation
+        return out
+
+    def _strs(e, f, depth=0):
+        """{string: the constant it comes from} for the strings that expression e, read in function f, can evaluate to (None / a falsy constant contributes nothing);
+        None when that is not decided."""
+        if e is None or depth > 5:
+            return None
+        if isinstance(e, ast.Constant):
+            return {e.value: e} if isinstance(e.value, str) and e.value else ({} if not e.value else None)
+        if isinstance(e, ast.IfExp):
+            parts = [_strs(e.body, f, depth + 1), _strs(e.orelse, f, depth + 1)]
+        elif isinstance(e, ast.BoolOp):
+            parts = [_strs(v_, f, depth + 1) for v_ in e.values]
+        elif isinstance(e, ast.Name) and f is not None:
+            defs_ = local_defs(f)
+            if e.id in defs_:
+                return _strs(defs_[e.id], f, depth + 1)
+            a_ = f.args
+            pos_ = a_.posonlyargs + a_.args
+            if e.id in [x.arg for x in pos_ + a_.kwonlyargs]:
+                dflt = dict(zip([x.arg for x in pos_[len(pos_) - len(a_.defaults):]], a_.defaults))
+                dflt.update({x.arg: d_ for x, d_ in zip(a_.kwonlyargs, a_.kw_defaults) if d_ is not None})
+                parts = [_strs(dflt[e.id], None, depth + 1)] if e.id in dflt else []
+                for c in _callers(f):
+                    if any(isinstance(x, ast.Starred) for x in c.args) or any(k_.arg is None for k_ in c.keywords):
+                        parts.append(None)
+                        continue
+                    arg = source.bind_args(c, f).get(e.id)
+                    if arg is not None:
+                        parts.append(_strs(arg, source.enclosing_func(c), depth + 1))
+                    elif e.id not in dflt:
+                        parts.append(None)
+                if not parts:
+                    return None
+            elif e.id in model.genv:
+                v_ = model.genv[e.id]
+                return {v_: e} if isinstance(v_, str) and v_ else ({} if not v_ else None)
+            else:
+                return None
+        else:
+            return None
+        if any(p_ is None for p_ in parts):
+            return None
+        out = {}
+        for p_ in parts:
+            for k_, v_ in p_.items():
+                out.setdefault(k_, v_)
+        return out
+
+    actions = {}  # action name -> the node that makes the store module send it (None: the library default)
+    if default_action is not None:
+        actions[default_action] = None
+    for n in ast.walk(met.tree):
+        val = None
+        if isinstance(n, ast.keyword) and n.arg == OPKEY:
+            val = n.value  # dict(doc, _op_type=...) / doc.update(_op_type=...)
+        elif isinstance(n, ast.Constant) and n.value == OPKEY:
+            p = source.parent(n)
+            if isinstance(p, ast.Dict) and any(k_ is n for k_ in p.keys):
+                val = p.values[[i for i, k_ in enumerate(p.keys) if k_ is n][0]]
+            elif isinstance(p, ast.Subscript) and p.slice is n and isinstance(p.ctx, ast.Store) and isinstance(source.parent(p), ast.Assign):
+                val = source.parent(p).value
+            elif isinstance(p, ast.Call) and last_attr(p.func) == "setdefault" and len(p.args) == 2 and p.args[0] is n:
+                val = p.args[1]
+            elif (isinstance(p, ast.Subscript) and isinstance(p.ctx, (ast.Load, ast.Del))) or isinstance(p, ast.Compare) or (isinstance(p, ast.Call) and last_attr(p.func) in ("get", "pop")):
+                continue  # a read of the key
+            else:
+                chk.unknown("O17.6", f"`{short(p, 60)}` mentions the bulk action key `{OPKEY}` in a form that is not one of the enumerated writes / reads", p)
+                continue
+        else:
+            continue
+        got = _strs(val, source.enclosing_func(n))
+        if got is None:
+            chk.unknown("O17.6", f"the bulk action `{short(val, 40)}` written into a document's `{OPKEY}` is not resolved to string constants (parameters, defaults, call sites in {_M})", n)
+            continue
+        for a_ in sorted(got):
+            actions.setdefault(a_, got[a_])
+    hb, nb = select("elasticsearch.helpers.BulkIndexError")
+    if hb is not None and states:
+        for act, site in sorted(actions.items(), key=lambda kv: (kv[1] is not None, kv[0])):
+            how = "the library default" if site is None else f"`{short(source.enclosing_stmt(site), 50)}` in {source.qualname(site) or _M}"
+            for st_ in sorted(RETRYABLE) + [400]:
+                inst = f"bulk item error reported under the action `{act}`, item status {st_}"
+                try:
+                    o = model.interpret(hb, ("item", st_, act), dict(states[0]))
+                except SIM_ERR as x:
+                    chk.unknown("O17.6", f"{inst}: handler `except {', '.join(nb)}` is not a decision over (loop state, item): {x}", hb)
+                    continue
+                if st_ in RETRYABLE:
+                    if retries(o) and len(o.sleeps) == 1 and o.sleeps[0] is None:
+                        chk.unknown("O17.6", f"{inst}: the duration slept is not decided by the loop state", hb)
+                        continue
+                    if retries(o) and not o.sleeps and elsewhere:
+                        chk.unknown("O17.6", f"{inst}: the pause of a retry is not made by the handler or behind the try: this shape is not modelled", elsewhere[0])
+                        continue
+                    ok, want = retries(o) and len(o.sleeps) == 1 and o.sleeps[0] > 0, "retry after one pause"
+                else:
+                    rk, rn = raised_class(o) if o.kind == "raise" else ("other", None)
+                    if o.kind == "raise" and rk == "unknown":
+                        chk.unknown("O17.6", f"{inst}: the class of what is raised ({rn}) is not decided", o.node if o.node is not None else hb)
+                        continue
+                    ok, want = o.kind == "raise" and rk == "rally" and not o.sleeps, "raise a Rally error"
+                chk.ob("O17.6", inst, ok, site if site is not None else hb,
+                       f"documents are sent under `{act}` ({how}); `except {', '.join(nb)}` -> {describe(o)[:90]}; expected: {want}"
+                       + ("" if ok else f" - the guard does not find the item's status under the action `{act}`"),
+                       key=f"{_M}:EsClient.guarded:bulk-action:{act}:{st_}")
+
+    # ---- O17.7 the synchronous client turns every error answer into the API error that the guard classifies -------------------------------------------------
+    # the guard only ever sees exceptions: an answer of the store that is neither 2xx nor explicitly tolerated by the operation (`ignore=<status>` handed through the guard,
+    # which the library turns into client.options(ignore_status=(status,))) must leave perform_request through the raise of HTTP_EXCEPTIONS / ApiError located above; a 2xx must not.
+    chk.rule("O17.7", "status -> exception conversion of the client behind every store operation, decided on values: the statements of RallySyncElasticsearch.perform_request that "
+             "follow the transport call are interpreted for every request method x answer status x ignore-status setting the store client uses (none, and each status an "
+             "operation hands to the guard as `ignore=`): 429/502/503/504, 401/403 and 400/404/409/500 reach the raise of the API error unless the status is the tolerated one "
+             "(or HEAD/404 = `exists`), and 200/201 reach the return", 8,
+             "an error answer is handed back to the guard as the `result` of a successful attempt: one attempt, no pause, no Rally error (create_index / delete under a 503, 429, 401)")
+    m_ = _re176.search(r"client\.(\w+)\s*=\s*ignore_status\b", _library_text("_sync", "client", "__init__.py"))
+    ign_attr = m_.group(1) if m_ else "_ignore_status"
+    chk.trusted.append(f"elasticsearch client: `ignore=<status>` / options(ignore_status=<status>) sets client.{ign_attr} = (<status>,); the default is the DEFAULT sentinel")
+    sentinel = Record()
+    settings = [("DEFAULT", sentinel, None), ("None", None, None)]
+    for name, f in em.items():
+        for c in source.calls_in(f):
+            if u(c.func) != guard_call:
+                continue
+            for k_ in [k_ for x in ast.walk(c) if isinstance(x, ast.Call) for k_ in x.keywords if k_.arg in ("ignore", "ignore_status")]:
+                try:
+                    v_ = model.value(k_.value, model.base_env())
+                except CannotEval as x:
+                    chk.unknown("O17.7", f"EsClient.{name}: the status tolerated by `{short(k_, 40)}` is not a constant: {x}", c)
+                    continue
+                tup = (v_,) if isinstance(v_, int) and not isinstance(v_, bool) else (tuple(v_) if isinstance(v_, (list, tuple, set, frozenset)) else None)
+                if tup is None:
+                    chk.unknown("O17.7", f"EsClient.{name}: `{short(k_, 40)}` is neither a status nor a collection of statuses", c)
+                elif not any(s_[1] == tup for s_ in settings[2:]):
+                    settings.append((f"{tup} (EsClient.{name}: {short(k_, 30)})", tup, c))
+    metav = unp_[0].targets[0].elts[0]
+    seq = _stmts_after(unp_[0], prq)
+    mparams = params_of(prq)
+    if not araise:
+        pass  # reported above: the raise is not located
+    elif seq is None or not isinstance(metav, ast.Name) or len(mparams) < 2:
+        chk.unknown("O17.7", "the statements that follow the transport call of the synchronous client are not in a recognised shape (function body / if / with around the call, "
+                             "`meta, body = ...` bound to two names, the request method as the first parameter)", unp_[0])
+    else:
+        base7 = {}
+        for nm, path in syn.imports.items():
+            if path.split(".")[0] in ("elastic_transport", "elasticsearch"):
+                if path.endswith(".DEFAULT"):
+                    base7[nm] = sentinel
+                elif path.split(".")[-1] in ("client_utils", "elastic_transport", "utils"):
+                    base7[nm] = Record(DEFAULT=sentinel)
+        for p_ in [x.arg for x in prq.args.args[2:] + prq.args.kwonlyargs]:
+            base7[p_] = None
+        GROUPS = (("429/502/503/504 (retried by the guard)", (429, 502, 503, 504)), ("401/403 (authentication / authorization)", (401, 403)),
+                  ("400/404/409/500 (other API errors)", (400, 404, 409, 500)), ("200/201 (success)", (200, 201)))
+        for label, ig, site in settings:
+            for gname, sts in GROUPS:
+                wrong, undecided = [], None
+                for meth in ("GET", "PUT", "POST", "DELETE", "HEAD"):
+                    for st_ in sts:
+                        if (isinstance(ig, tuple) and st_ in ig) or (meth == "HEAD" and st_ == 404):
+                            continue  # tolerated on purpose: either way is compatible with the property
+                        env = dict(base7)
+                        env.update({mparams[1]: meth, metav.id: Record(status=st_, headers={}, http_version="1.1", duration=0.0, node=None),
+                                    bodyv: ({"acknowledged": True} if st_ < 300 else {"error": {"type": "some_exception", "reason": "some reason"}, "status": st_}),
+                                    "self": Record(**{ign_attr: ig})})
+                        try:
+                            kind, node = _flow(seq, env)
+                        except _Undecided as x:
+                            undecided = undecided or (str(x), unp_[0])
+                            continue
+                        if st_ < 300:
+                            if kind == "raise":
+                                wrong.append((meth, st_, f"raises `{short(node, 50)}`", node))
+                        elif kind != "raise":
+                            wrong.append((meth, st_, "is returned as a normal response" + (f" (`{short(node, 40)}`)" if node is not None else ""), node if node is not None else araise[0]))
+                        elif not any(node is r_ for r_ in araise):
+                            undecided = undecided or (f"a {st_} answer to {meth} ends in `{short(node, 50)}`, which is not recognised as the raise of the API error", node)
+                inst = f"sync client, tolerated statuses {label}: answers {gname}"
+                if wrong:
+                    meth, st_, what, node = wrong[0]
+                    chk.ob("O17.7", inst, False, araise[0],
+                           f"client.{ign_attr} = {label}: a {st_} answer to a {meth} request {what}" + (f" (and {len(wrong) - 1} more method/status combination(s))" if len(wrong) > 1 else "")
+                           + (" instead of leaving perform_request as the API error: the guard takes the error document for the result of a successful attempt" if st_ >= 300 else
+                              ": the guard sees a failed attempt where the store answered with success"),
+                           key=f"esrally/client/synchronous.py:RallySyncElasticsearch.perform_request:status-conversion:{label.split(' ')[0]}:{gname.split(' ')[0]}")
+                elif undecided is not None:
+                    chk.unknown("O17.7", f"{inst}: {undecided[0]}", undecided[1])
+                else:
+                    chk.ob("O17.7", inst, True, araise[0], f"client.{ign_attr} = {label}: every method x status reaches " + ("the return" if sts[0] < 300 else f"`{short(araise[0], 60)}`"),
+                           key=f"esrally/client/synchronous.py:RallySyncElasticsearch.perform_request:status-conversion:{label.split(' ')[0]}:{gname.split(' ')[0]}")
+
     _store_requests_guarded(chk, repo, met, EC, gd)
 
 
@@ -1640,6 +1997,10 @@ _TIMEOUT_HELPER = ("    def _on_timeout(self, e, attempt, max_attempts, pause, o
                    "                operation, node.host, node.port)\n            raise exceptions.RallyError(msg)\n"
                    "        self.logger.debug(\"Connection timeout [%s] in attempt [%d/%d]. Sleeping for [%f] seconds.\", e.message, attempt, max_attempts, pause)\n"
                    "        time.sleep(pause)\n\n")
+_S = "esrally/client/synchronous.py"
+_INDEX_DOC = "    def index(self, index, item, id=None):\n        doc = {\"_source\": item}\n"
+_STATUS_TEST = ("        if not (method == \"HEAD\" and meta.status == 404) and (\n            not 200 <= meta.status < 299\n"
+                "            and (self._ignore_status is DEFAULT or self._ignore_status is None or meta.status not in self._ignore_status)\n        ):\n")
 VARIANTS = [
     V("search called directly", "break", _M, "        return self.guarded(self._client.search, index=index, body=body)", "        return self._client.search(index=index, body=body)", "O17.1"),
     V("second target call after the loop", "break", _M, "                self.logger.exception(msg)\n                # this does not necessarily mean it's a system setup problem...\n                raise exceptions.RallyError(msg)\n\n\nclass EsClientFactory",
@@ -1701,4 +2062,49 @@ VARIANTS = [
     [V("break on success, result returned after the loop", "keep", _M, "                return target(*args, **kwargs)\n", "                result = target(*args, **kwargs)\n                break\n"),
      V("", "keep", _M, _GUARD_END, _GUARD_END.replace("\n\n\nclass EsClientFactory", "\n        return result\n\n\nclass EsClientFactory"))],
     V("renamed retryable set attribute", "keep", _M, "retryable_status_codes", "_transient_statuses", count=3),
+    # O17.6: the action under which documents are sent == the key under which the bulk arm reads a failed item
+    [V("seed m14: annotations are sent under the bulk action `create` (threaded through a new parameter of index)", "break", _M, _INDEX_DOC,
+       "    def index(self, index, item, id=None, op_type=\"index\"):\n        doc = {\"_source\": item, \"_op_type\": op_type}\n", "O17.6"),
+     V("", "break", _M, "                id=annotation_id,\n", "                id=annotation_id,\n                op_type=\"create\",\n")],
+    V("every single document is sent under `create`", "break", _M, "        doc = {\"_source\": item}\n", "        doc = {\"_source\": item, \"_op_type\": \"create\"}\n", "O17.6"),
+    V("document with an id is sent under `create` (subscript store)", "break", _M, "            doc[\"_id\"] = id\n", "            doc[\"_id\"] = id\n            doc[\"_op_type\"] = \"create\"\n", "O17.6"),
+    V("flushed metrics documents are re-wrapped with the action `create`", "break", _M, "        self.guarded(elasticsearch.helpers.bulk, self._client, items, index=index, chunk_size=5000)",
+      "        self.guarded(elasticsearch.helpers.bulk, self._client, [dict(doc, _op_type=\"create\") for doc in items], index=index, chunk_size=5000)", "O17.6"),
+    V("the bulk arm reads failed items under `create` while documents are sent under the default action", "break", _M, "err.get(\"index\", {})", "err.get(\"create\", {})", "O17.", count=2),
+    V("the default bulk action spelled out", "keep", _M, "        doc = {\"_source\": item}\n", "        doc = {\"_source\": item, \"_op_type\": \"index\"}\n"),
+    [V("bulk action threaded through a parameter, every caller sends `index`", "keep", _M, _INDEX_DOC,
+       "    def index(self, index, item, id=None, op_type=\"index\"):\n        doc = {\"_source\": item, \"_op_type\": op_type}\n"),
+     V("", "keep", _M, "                id=annotation_id,\n", "                id=annotation_id,\n                op_type=\"index\",\n")],
+    [V("annotations sent under `create`, failed items read under whatever action they are reported", "keep", _M, _INDEX_DOC,
+       "    def index(self, index, item, id=None, op_type=\"index\"):\n        doc = {\"_source\": item, \"_op_type\": op_type}\n"),
+     V("", "keep", _M, "                id=annotation_id,\n", "                id=annotation_id,\n                op_type=\"create\",\n"),
+     V("", "keep", _M, _ITEM_SCAN, _ITEM_SCAN.replace("                    err_type = ", "                    item = next(iter(err.values()))\n                    err_type = ")
+       .replace("err.get(\"index\", {})", "item"))],
+    # O17.7: status -> exception conversion of the synchronous client
+    V("seed m15: a client that tolerates one status swallows every error status", "break", _S, _STATUS_TEST,
+      "        ignored = self._ignore_status is not DEFAULT and self._ignore_status is not None\n"
+      "        if not (method == \"HEAD\" and meta.status == 404) and not 200 <= meta.status < 299 and not ignored:\n", "O17.7"),
+    V("5xx answers are no longer converted", "break", _S, "            not 200 <= meta.status < 299\n", "            not 200 <= meta.status < 500\n", "O17.7"),
+    V("every answer to a HEAD request is a normal response", "break", _S, "        if not (method == \"HEAD\" and meta.status == 404) and (\n", "        if not (method == \"HEAD\" or meta.status == 404) and (\n", "O17.7"),
+    V("membership test of the tolerated statuses inverted", "break", _S, "meta.status not in self._ignore_status)", "meta.status in self._ignore_status)", "O17.7"),
+    V("error answers only raise while no status is tolerated (or -> and)", "break", _S, "self._ignore_status is None or meta.status not in self._ignore_status)",
+      "self._ignore_status is None and meta.status not in self._ignore_status)", "O17.7"),
+    V("status test pulled into a local, De Morgan done right", "keep", _S, _STATUS_TEST,
+      "        ignored = self._ignore_status is not DEFAULT and self._ignore_status is not None and meta.status in self._ignore_status\n"
+      "        if not (method == \"HEAD\" and meta.status == 404) and not 200 <= meta.status < 299 and not ignored:\n"),
+    V("any answer to a HEAD request returns early", "break", _S, _STATUS_TEST, "        if method == \"HEAD\":\n            return HeadApiResponse(meta=meta)\n" + _STATUS_TEST, "O17.7"),
+    V("HEAD/404 returns early (guard clause)", "keep", _S, _STATUS_TEST, "        if method == \"HEAD\" and meta.status == 404:\n            return HeadApiResponse(meta=meta)\n" + _STATUS_TEST),
+    V("tolerated statuses normalised to a tuple first", "keep", _S, _STATUS_TEST,
+      "        ignore = () if self._ignore_status in (DEFAULT, None) else self._ignore_status\n"
+      "        if not (method == \"HEAD\" and meta.status == 404) and meta.status >= 300 and meta.status not in ignore:\n"),
+    V("normalised tolerated statuses tested for emptiness instead of membership", "break", _S, _STATUS_TEST,
+      "        ignore = () if self._ignore_status in (DEFAULT, None) else self._ignore_status\n"
+      "        if not (method == \"HEAD\" and meta.status == 404) and meta.status >= 300 and not ignore:\n", "O17.7"),
+    V("tolerated statuses recognised by their container type", "keep", _S, _STATUS_TEST,
+      "        if not (method == \"HEAD\" and meta.status == 404) and not 200 <= meta.status < 299 and not (\n"
+      "            isinstance(self._ignore_status, (tuple, list)) and meta.status in self._ignore_status\n        ):\n"),
+    V("status test as one `tolerated` flag", "keep", _S, _STATUS_TEST,
+      "        status = meta.status\n        tolerated = 200 <= status < 299 or (method == \"HEAD\" and status == 404)\n"
+      "        if not tolerated and self._ignore_status is not DEFAULT and self._ignore_status is not None:\n            tolerated = status in self._ignore_status\n"
+      "        if not tolerated:\n"),
 ]
